@@ -29,7 +29,7 @@ ASSUMPTIONS = ["granularity is one Python line of conductor code or of subproces
                "'Exception ignored in ...' notes that CPython prints for exceptions inside __del__ are not counted as an internal error"]
 ESSENTIAL = ["inflight_at_injection", "two_inflight", "second_signal_in_terminate_processes", "in_start_execution", "in_wait", "in_finish_execution",
              "in_sigchld_handler", "during_planning", "in_launch_after_start_execution", "SIGINT", "SIGTERM"]
-TECHNIQUE = "fault injection enumeration: every executed line as an interrupt point (sys.settrace) under a virtual kernel; Hypothesis generates the scenarios"
+TECHNIQUE = "fault injection enumeration: every executed line as an interrupt point (sys.settrace) under a virtual kernel; Hypothesis generates the scenarios; one generated case in 12 sends a real SIGINT/SIGTERM to a run with real task processes"
 LEVEL_TEXT = ("Enumerates interrupt points at Python-line granularity for fixed scenarios (every line in thorough, stride in "
               "quick) and samples them for Hypothesis-generated scenarios; each injected run is judged on SIGTERM coverage of "
               "live children, exit status/diagnostic and index rows.")
